@@ -16,17 +16,13 @@ func JSONToPlainStringMap(data []byte) (map[string]string, error) {
 	return out, nil
 }
 
-func jsonToPlainStringMap(resultKey string, result map[string]string, data []byte) error {
+// prefix is the dotted path of the enclosing object followed by a dot ("" for the document itself)
+func jsonToPlainStringMap(prefix string, result map[string]string, data []byte) error {
 	return jsonparser.ObjectEach(data, func(key []byte, value []byte, dataType jsonparser.ValueType, offset int) error {
-		var newResultKey string
-		if resultKey != "" {
-			newResultKey = resultKey + "." + string(key)
-		} else {
-			newResultKey = string(key)
-		}
+		newResultKey := prefix + string(key)
 		switch dataType {
 		case jsonparser.Object:
-			return jsonToPlainStringMap(newResultKey, result, value)
+			return jsonToPlainStringMap(newResultKey+".", result, value)
 		case jsonparser.String:
 			// value is a raw (still escaped) content of the JSON string
 			str, err := jsonparser.ParseString(value)
